@@ -16,7 +16,7 @@ EXTENDS Integers, Sequences, FiniteSets, TLC, Json
 CONSTANTS MaxLen, NSeed, NParam, EmitLen,
           OpFilter     \* the operations a configuration may use (AllOps, or a focused subset)
 
-\* operation |-> <<argument kinds, result kind>> ; "C" contract, "L" constraint list, "K" compound contract, "S" scalar/none
+\* operation |-> <<argument kinds, result kind>> ; "C" contract, "L" constraint list, "K" compound contract, "T" single term, "S" scalar/none
 Sig == [ compose |-> <<(<<"C", "C">>), "C">>, quotient |-> <<(<<"C", "C">>), "C">>, merge |-> <<(<<"C", "C">>), "C">>,
          refines |-> <<(<<"C", "C">>), "S">>, rename |-> <<(<<"C">>), "C">>, copy |-> <<(<<"C">>), "C">>,
          simplify |-> <<(<<"L", "L">>), "L">>, elim_refine |-> <<(<<"L", "L">>), "L">>, elim_relax |-> <<(<<"L", "L">>), "L">>,
@@ -30,11 +30,19 @@ Sig == [ compose |-> <<(<<"C", "C">>), "C">>, quotient |-> <<(<<"C", "C">>), "C"
          \* called on (the pool slot appended is an independent rebuild of the target's new value)
          simplify_inplace |-> <<(<<"C">>), "C">>,
          hash_eq |-> <<(<<"C", "C">>), "S">>, list_hash_eq |-> <<(<<"L", "L">>), "S">>,
+         \* the public methods of a single term (PolyhedralTerm): what the tactics are built from
+         pick_term |-> <<(<<"L">>), "T">>, term_rename |-> <<(<<"T">>), "T">>, term_isolate |-> <<(<<"T">>), "T">>,
+         term_substitute |-> <<(<<"T", "T">>), "T">>, term_add |-> <<(<<"T", "T">>), "T">>, term_multiply |-> <<(<<"T">>), "T">>,
+         term_remove |-> <<(<<"T">>), "T">>, term_queries |-> <<(<<"T">>), "S">>, list_of_terms |-> <<(<<"T", "T">>), "L">>,
+         \* the contract constructor on two pool lists (it copies what it is given; interface = the variables they mention)
+         construct |-> <<(<<"L", "L">>), "C">>,
          cmerge |-> <<(<<"K", "K">>), "K">>, ccontains |-> <<(<<"K">>), "S">>, cprinted |-> <<(<<"K">>), "S">>, ceq |-> <<(<<"K", "K">>), "S">> ]
 Mutators == {"simplify_inplace"}      \* operations allowed to change their FIRST argument, and nothing else
 AllOps == DOMAIN Sig
 FocusOps == {"compose", "quotient", "copy", "elim_refine", "merge"}
-HashOps == {"copy", "simplify_inplace", "hash_eq", "rename", "dict_roundtrip"}
+TermOps == {"construct", "difference", "pick_term", "term_rename", "term_isolate", "term_substitute", "term_add", "term_multiply", "term_remove", "term_queries", "list_of_terms",
+            "is_empty", "simplify", "list_copy", "contains"}
+HashOps == {"copy", "simplify_inplace", "hash_eq", "rename", "dict_roundtrip", "compose", "merge"}
 Ops == DOMAIN Sig \cap OpFilter
 
 VARIABLES kinds,   \* kinds[i] : kind of pool member i ("C" / "L" / "S")
@@ -43,7 +51,7 @@ VARIABLES kinds,   \* kinds[i] : kind of pool member i ("C" / "L" / "S")
                    \* first makes -simulate sample operations uniformly, not in proportion to their argument choices
 vars == <<kinds, hist, pend>>
 
-Init == kinds = [i \in 1..NSeed |-> IF i % 3 = 0 THEN "L" ELSE IF i % 4 = 0 THEN "K" ELSE "C"] /\ hist = <<>> /\ pend = "none"
+Init == kinds = [i \in 1..NSeed |-> IF i % 3 = 0 THEN "L" ELSE IF i % 4 = 0 THEN "K" ELSE IF i % 5 = 0 THEN "T" ELSE "C"] /\ hist = <<>> /\ pend = "none"
 
 ArgChoices(ks) ==   \* all index tuples into the pool with the required kinds
   IF Len(ks) = 0 THEN {<<>>}
